@@ -935,6 +935,14 @@ def array(obj, dtype=None, copy=True, ndmin=0):
     return a
 
 
+def atleast_1d(*arys):
+    res = []
+    for a in arys:
+        a = _as_nd(a)
+        res.append(a.reshape(1) if a.ndim == 0 else a)
+    return res[0] if len(res) == 1 else res
+
+
 def asarray(obj, dtype=None):
     if isinstance(obj, ndarray) and (dtype is None or dt_tag(dtype) == obj._tag):
         return obj
